@@ -140,7 +140,7 @@ def main(argv=None):
     ctab = ClassTable(repo)
     for c in REG['classes']:
         ctab.add(c)
-    timeout_ms = 10000 if a.tier == 'quick' else 60000
+    timeout_ms = 30000 if a.tier == 'quick' else 120000
 
     fn_results = []
     all_obs = []
@@ -203,7 +203,7 @@ def main(argv=None):
                     if any(v == 'vacuous' for v in vs) and not any(v == 'covered' for v in vs):
                         vacuity.append((name, 'preconditions are unsatisfiable'))
             else:
-                if not any(v == 'covered' for v in vs):
+                if all(v == 'vacuous' for v in vs):
                     vacuity.append((name, 'no feasible normal exit'))
             ob_list.append({'name': name, 'kind': 'cover', 'verdict': 'covered' if any(v == 'covered' for v in vs) else vs[0],
                             'paths': len(obs), 'ms': sum(o.ms for o in obs)})
@@ -304,6 +304,38 @@ def main(argv=None):
         lines.append('VIOLATION property=%s replay=%s%s' % (pid, path, suffix))
         viol_records.append({'obligation': name, 'replay': path})
         exit_code = 1
+    # obligations that lost their proof without a counter-model (time-out / outside the subset): the
+    # bounded back end searches the same contract natively; only a natively failing input is reported
+    still_undecided = []
+    searched = False
+    for nm, why in undecided:
+        if prop.replay_script is None or searched and not any(v for v in viol_records):
+            still_undecided.append((nm, why))
+            continue
+        if searched:
+            continue        # one native search per run: it already produced the witness
+        payload = {'property': pid, 'obligation': nm, 'kind': 'undecided-obligation', 'reason': why,
+                   'note': 'the obligation is no longer discharged on this tree and the solver gave no counter-model; '
+                           'input below (if any) was found by the bounded native search of the same contract'}
+        path = write_replay(pid, nm, payload)
+        nat = native_replay(prop, pid, path)
+        searched = True
+        payload['native'] = nat
+        with open(os.path.join(VERIF, path), 'w') as f:
+            json.dump(payload, f, indent=1, default=str)
+        if nat and nat.get('reproduced'):
+            lines.append('VIOLATION property=%s replay=%s' % (pid, path))
+            viol_records.append({'obligation': nm, 'replay': path, 'found_by': 'bounded native search after the proof was lost'})
+            exit_code = 1
+        else:
+            still_undecided.append((nm, why))
+            try:
+                os.unlink(os.path.join(VERIF, path))
+            except OSError:
+                pass
+    if searched and exit_code == 1:
+        still_undecided = [(n, w) for n, w in undecided if not any(v['obligation'] == n for v in viol_records)]
+    undecided = still_undecided
     if crashed or not (all_obs or scan_results):
         lines.append('CHECKER-ERROR property=%s %s' % (pid, 'crash in %d unit(s)' % len(crashed) if crashed else 'zero obligations generated'))
         for c in crashed:
